@@ -20,6 +20,9 @@ Local Open Scope string_scope.
 Local Open Scope N_scope.
 """
 DBNAMES = ["alpha", "Beta", "gamma", "ALPHA", "beta", "nosuch"]
+# pairs of lower-case names that are equal under Unicode simple case folding (sigma / final sigma, micro sign /
+# mu, s / long s) but are different directory names: different databases
+FOLDPAIRS = [("db\u03c3", "db\u03c2"), ("\u00b5m", "\u03bcm"), ("mass", "ma\u017fs")]
 # names that are paths or too long for a directory name: must be refused by CREATE DATABASE and USE and
 # leave no trace in SHOW DATABASES (until /repo a710589 / 71be150: "a/b" was listed as "a", "../esc" left
 # the data directory, a 300-character name made CREATE DATABASE panic); written as delimited identifiers
@@ -27,7 +30,7 @@ ODDNAMES = ["a/b", "../esc", ".", "..", "alpha/../beta", "alpha/x", "L" * 300]
 
 
 def sql_name(n):
-    return n if n.isalnum() and len(n) < 100 else '"%s"' % n
+    return n if n.isalnum() and n.isascii() and len(n) < 100 else '"%s"' % n
 
 
 def gen_case(rng, tier):
@@ -41,6 +44,21 @@ def gen_case(rng, tier):
         r = rng.random()
         if created and r < 0.03:
             evs.append((rng.choice(["createdb", "use"]), rng.choice(ODDNAMES)))
+            evs.append(("show",))
+        elif created and r < 0.05 and not any(p[0] in created for p in FOLDPAIRS):
+            # two databases whose names are fold-equal: statements go to the one that is selected
+            a, b = rng.choice(FOLDPAIRS)
+            for nm in (a, b):
+                evs.append(("createdb", nm))
+                created.append(nm)
+                gens[nm] = hist.Gen(rng, 3)
+            for nm in (a, b, a):
+                evs.append(("use", nm))
+                cur = nm
+                g = gens[cur]
+                st = g.create() if not g.tables else g.insert(nrows=2)
+                evs.append(("sql_stmt", st))
+                evs.append(("read", sorted(g.tables)[:4]))
             evs.append(("show",))
         elif r < 0.12 or not created:
             name = rng.choice(DBNAMES[:5])
